@@ -665,7 +665,7 @@ class Shape(object):
         else:
             self.logger.debug(f"Running evaluation of Shape {str(self)}")
 
-        if executor.focus_nodes is not None and len(executor.focus_nodes) > 0:
+        if lh_shape and executor.focus_nodes is not None and len(executor.focus_nodes) > 0:
             filtered_focus_nodes: List[Union[URIRef]] = []
             for _fo in focus_list:  # type: RDFNode
                 if isinstance(_fo, URIRef) and _fo in executor.focus_nodes:
